@@ -175,6 +175,17 @@ def run(pid, tier):
             violations.append(_violation(binpath, inv, cls, seq, seqs[e["seq"]], fee, pct, tag))
         cov["legs"][tag] = leg
 
+    # ---- leg D: pairs of requests executed concurrently under imposed schedules (shared with C20): C06 reports
+    #      an overpayment / unbacked payment that is reached only concurrently; non-linearizable outcomes as
+    #      such are C20's business and are only counted here
+    cviol, ccov, cruns = payments.conc_component(tier)
+    cov["legs"]["D_concurrent_pairs"] = ccov["atomicity_payment_ledger"]
+    violations += [v for v in cviol if v["key"].startswith("C06")]
+    if any(not v["key"].startswith("C06") for v in cviol):
+        notes.append("concurrency leg: %d non-linearizable / stuck outcomes (reported by C20): %s" % (
+            sum(1 for v in cviol if not v["key"].startswith("C06")),
+            sorted(set(v["key"] for v in cviol if not v["key"].startswith("C06")))[:6]))
+
     # ---- verdict
     assumed = _assumed_known()
     shown = []
@@ -193,7 +204,7 @@ def run(pid, tier):
             "updating; not a property violation)" % (pid, len(divergences)))
     cov.update({
         "states": max(1, tot_states), "transitions": max(1, tot_trans),
-        "traces_validated_against_impl": tot_edges + csteps,
+        "traces_validated_against_impl": tot_edges + csteps + cruns, "concurrent_runs_judged": cruns,
         "impl_edges_checked_against_Step": tot_edges, "replayed_simulation_steps": csteps,
         "samples": samples or [{"note": "no accepted edge"}],
         "exhaustive": True,
@@ -273,6 +284,8 @@ def replay(pid, obj):
     """Re-run a recorded violating request sequence on a fresh real node and let TLC judge."""
     _private()
     rp = obj["replay"]
+    if rp.get("kind") == "payments-conc":
+        return payments.conc_replay(pid, rp)
     binpath = vlib.build("payments")
     d = payments.wd("replay")
     steps = os.path.join(d, "steps.ndjson")
